@@ -34,6 +34,11 @@ def ev(node, env):
         key = ast.unparse(node)
         if key in env:
             return env[key]
+        if isinstance(node.value, ast.Name) and node.value.id in ('self', 'cls') and env.get('__cls__') is not None:
+            # a class-level table read through the instance (self.FORMATS): a literal display in the class body
+            r = env['__cls__'].find_attr(node.attr)
+            if r is not None:
+                return ev(r[1], {'__funcs__': env.get('__funcs__')} if env.get('__funcs__') else {})
         raise Unsupported('free attribute %s' % key)
     if isinstance(node, ast.UnaryOp):
         v = ev(node.operand, env)
@@ -107,7 +112,7 @@ def ev(node, env):
                 ok = left is right
             elif isinstance(op, ast.IsNot):
                 ok = left is not right
-            elif isinstance(op, (ast.In, ast.NotIn)) and isinstance(right, (dict, list, tuple, set, str, bytes)):
+            elif isinstance(op, (ast.In, ast.NotIn)) and isinstance(right, (dict, list, tuple, set, str, bytes, bytearray)):
                 ok = (left in right) == isinstance(op, ast.In)
             else:
                 raise Unsupported('comparison %s' % type(op).__name__)
@@ -129,6 +134,28 @@ def ev(node, env):
             genv['__funcs__'] = env['__funcs__']
             r, _ = run_function(g, genv)
             return r
+    if isinstance(node, ast.Call) and env.get('__stubs__') and ast.unparse(node.func) in env['__stubs__'] and not node.keywords:
+        # an operation of the environment the extracted code runs in (e.g. the next octet of a given octet string), supplied by the rule
+        return env['__stubs__'][ast.unparse(node.func)](*[ev(a, env) for a in node.args])
+    if isinstance(node, ast.Call) and isinstance(node.func, ast.Attribute) and isinstance(node.func.value, ast.Name) and node.func.value.id == 'self' \
+            and env.get('__cls__') is not None and not node.keywords:
+        # a method of the same object (decision-table helper): interpreted on the same self.* bindings
+        r = env['__cls__'].find_method(node.func.attr)
+        if r is not None:
+            g = r[1]
+            params = [a.arg for a in g.args.args]
+            if params and params[0] in ('self', 'cls'):
+                params = params[1:]
+            args = [ev(a, env) for a in node.args]
+            if len(args) != len(params):
+                raise Unsupported('arity of self.%s' % node.func.attr)
+            genv = {k: v for k, v in env.items() if isinstance(k, str) and (k.startswith('self.') or k.startswith('__'))}
+            genv.update(zip(params, args))
+            rv, out = run_function(g, genv)
+            for k, v in out.items():
+                if isinstance(k, str) and k.startswith('self.'):
+                    env[k] = v
+            return rv
     if isinstance(node, ast.Call) and isinstance(node.func, ast.Name):
         args = [ev(a, env) for a in node.args]
         if node.func.id == 'divmod' and len(args) == 2:
@@ -139,17 +166,18 @@ def ev(node, env):
             return abs(args[0])
         if node.func.id == 'int' and len(args) == 1:
             return int(args[0])
-        if node.func.id == 'len' and len(args) == 1 and isinstance(args[0], (list, tuple, str, bytes)):
+        if node.func.id == 'len' and len(args) == 1 and isinstance(args[0], (list, tuple, str, bytes, bytearray)):
             return len(args[0])
         if node.func.id == 'bool' and len(args) == 1:
             return bool(args[0])
         if node.func.id in ('bytearray', 'bytes') and len(args) <= 1:
+            mk = bytearray if node.func.id == 'bytearray' else bytes       # the interpreter's own byte strings
             if not args:
-                return b''
+                return mk()
             if isinstance(args[0], (list, tuple)) and all(isinstance(x, int) and 0 <= x <= 255 for x in args[0]):
-                return bytes(args[0])
-            if isinstance(args[0], bytes):
-                return args[0]
+                return mk(args[0])
+            if isinstance(args[0], (bytes, bytearray)):
+                return mk(args[0])
             raise Unsupported('bytes(...) of %r' % (args[0],))
     if isinstance(node, ast.Call) and isinstance(node.func, ast.Attribute) and node.func.attr == 'bit_length' and not node.args:
         return ev(node.func.value, env).bit_length()
@@ -158,7 +186,7 @@ def ev(node, env):
     if isinstance(node, ast.Subscript) and not isinstance(node.slice, ast.Slice):
         b = ev(node.value, env)
         i = ev(node.slice, env)
-        if isinstance(b, (list, tuple, bytes)) and isinstance(i, int) and -len(b) <= i < len(b):
+        if isinstance(b, (list, tuple, bytes, bytearray)) and isinstance(i, int) and -len(b) <= i < len(b):
             return b[i]
         if isinstance(b, dict):
             return b[i]       # KeyError propagates: the caller decides what a missing key means
@@ -180,6 +208,32 @@ def run_function(f, env, max_steps=10000, skip_calls=False):
     While loops with integer arithmetic (bounded).  Returns the returned value; raises Raised on raise."""
     env = dict(env)
     steps = [0]
+    if isinstance(f, ast.FunctionDef):
+        if '__cls__' not in env and getattr(f, '_cls', None) is not None:
+            env['__cls__'] = f._cls
+        if '__funcs__' not in env and getattr(f, '_mod', None) is not None:
+            mod_ = f._mod
+            env['__funcs__'] = lambda name: (lambda r: r if isinstance(r, ast.FunctionDef) else None)(mod_.resolve_name(name))
+
+    class _Break(Exception):
+        pass
+
+    class _Continue(Exception):
+        pass
+
+    def bind(t, v):
+        if isinstance(t, ast.Name):
+            env[t.id] = v
+        elif isinstance(t, (ast.Tuple, ast.List)):
+            v = list(v)
+            if len(v) != len(t.elts):
+                raise Unsupported('unpacking')
+            for tt, vv in zip(t.elts, v):
+                bind(tt, vv)
+        elif isinstance(t, ast.Attribute):
+            env[ast.unparse(t)] = v
+        else:
+            raise Unsupported('assignment target')
 
     def block(stmts):
         for s in stmts:
@@ -195,24 +249,56 @@ def run_function(f, env, max_steps=10000, skip_calls=False):
             elif isinstance(s, ast.Assign):
                 v = ev(s.value, env)
                 for t in s.targets:
-                    if isinstance(t, ast.Name):
-                        env[t.id] = v
-                    elif isinstance(t, ast.Tuple):
-                        for tt, vv in zip(t.elts, v):
-                            env[tt.id] = vv
-                    elif isinstance(t, ast.Attribute):
-                        env[ast.unparse(t)] = v
-                    else:
-                        raise Unsupported('assignment target')
+                    bind(t, v)
+            elif isinstance(s, ast.AugAssign) and isinstance(s.target, ast.Subscript) and not isinstance(s.target.slice, ast.Slice):
+                box = ev(s.target.value, env)
+                if not isinstance(box, (list, bytearray, dict)):
+                    raise Unsupported('item update of %s' % type(box).__name__)
+                box[ev(s.target.slice, env)] = ev(ast.BinOp(left=s.target, op=s.op, right=s.value), env)
             elif isinstance(s, ast.AugAssign):
                 key = s.target.id if isinstance(s.target, ast.Name) else ast.unparse(s.target)
                 env[key] = ev(ast.BinOp(left=s.target, op=s.op, right=s.value), env)
+            elif isinstance(s, ast.Expr) and isinstance(s.value, ast.Call) and isinstance(s.value.func, ast.Attribute) \
+                    and s.value.func.attr in ('append', 'extend', 'reverse') and isinstance(s.value.func.value, ast.Name) \
+                    and isinstance(env.get(s.value.func.value.id), (list, bytearray)):
+                # the interpreter's own lists / byte strings are mutable values
+                box = env[s.value.func.value.id]
+                a_ = [ev(x, env) for x in s.value.args]
+                getattr(box, s.value.func.attr)(*a_)
             elif isinstance(s, ast.While):
                 while ev(s.test, env):
                     steps[0] += 1
                     if steps[0] > max_steps:
                         raise Unsupported('step limit')
-                    block(s.body)
+                    try:
+                        block(s.body)
+                    except _Break:
+                        break
+                    except _Continue:
+                        continue
+                else:
+                    block(s.orelse)
+            elif isinstance(s, ast.For):
+                it = ev(s.iter, env)
+                if not isinstance(it, (list, tuple)):
+                    raise Unsupported('for over %s' % type(it).__name__)
+                for item in it:
+                    steps[0] += 1
+                    if steps[0] > max_steps:
+                        raise Unsupported('step limit')
+                    bind(s.target, item)
+                    try:
+                        block(s.body)
+                    except _Break:
+                        break
+                    except _Continue:
+                        continue
+                else:
+                    block(s.orelse)
+            elif isinstance(s, ast.Break):
+                raise _Break()
+            elif isinstance(s, ast.Continue):
+                raise _Continue()
             elif isinstance(s, ast.Pass):
                 pass
             elif isinstance(s, ast.Expr) and isinstance(s.value, ast.Constant):
